@@ -197,7 +197,7 @@ package atree
 //@        (forall k :: chi + 1 < k && k < len(a.childrenHeaders) ==> a.childrenHeaders[k] == old(a.childrenHeaders)[k - 1]) &&
 //@        a.childrenHeaders[chi].count + a.childrenHeaders[chi + 1].count == old(a.childrenHeaders)[chi].count
 //@   ensures[C05] err == nil ==> hdrBand(a.childrenHeaders[chi]) && hdrBand(a.childrenHeaders[chi + 1]) && nodeWF(sto[a.childrenHeaders[chi].slabID]) && nodeWF(sto[a.childrenHeaders[chi + 1].slabID])
-//@   ensures[C03] err == nil ==> has(stored, a) && has(stored, sto[a.childrenHeaders[chi].slabID]) && has(stored, sto[a.childrenHeaders[chi + 1].slabID])
+//@   ensures[C01 C03] err == nil ==> has(stored, a) && has(stored, sto[a.childrenHeaders[chi].slabID]) && has(stored, sto[a.childrenHeaders[chi + 1].slabID])
 //@   ensures[C09] forall id SlabID :: old(sto[id]) != nil && id != old(a.header.slabID) && id != old(a.childrenHeaders)[chi].slabID ==> sto[id] == old(sto[id])
 //@   modifies a.childrenHeaders, a.childrenCountSum, a.header, ghost.sto, ghost.stored, ghost.touched, alloc,
 //@        as(child, *ArrayDataSlab).elements, as(child, *ArrayDataSlab).header, as(child, *ArrayDataSlab).next,
@@ -227,7 +227,7 @@ package atree
 //@   ensures[C05] err == nil ==> nodeWF(l) && nodeWF(r)
 //@   ensures[C09] err == nil ==> sto[a.header.slabID] == a && distinctChildren(a)
 //@   ensures[C09] err == nil ==> agree(a)
-//@   ensures[C03] err == nil ==> has(stored, a) && has(stored, l) && has(stored, r)
+//@   ensures[C01 C03] err == nil ==> has(stored, a) && has(stored, l) && has(stored, r)
 //@   ensures[C09] forall id SlabID :: id != old(a.header.slabID) && id != old(a.childrenHeaders)[li].slabID && id != old(a.childrenHeaders)[ri].slabID ==> sto[id] == old(sto[id])
 //@   modifies a.childrenHeaders, a.childrenCountSum, ghost.sto, ghost.stored, ghost.touched, alloc,
 //@        as(l, *ArrayDataSlab).elements, as(l, *ArrayDataSlab).header, as(r, *ArrayDataSlab).elements, as(r, *ArrayDataSlab).header,
@@ -251,7 +251,7 @@ package atree
 //@   ensures[C05] err == nil ==> hdrBand(a.childrenHeaders[li]) && nodeWF(l)
 //@   ensures[C09] err == nil ==> sto[old(a.childrenHeaders)[ri].slabID] == nil && sto[a.header.slabID] == a && distinctChildren(a)
 //@   ensures[C09] err == nil ==> agree(a)
-//@   ensures[C03] err == nil ==> has(stored, a) && has(stored, l)
+//@   ensures[C01 C03] err == nil ==> has(stored, a) && has(stored, l)
 //@   ensures[C09] forall id SlabID :: id != old(a.header.slabID) && id != old(a.childrenHeaders)[li].slabID && id != old(a.childrenHeaders)[ri].slabID ==> sto[id] == old(sto[id])
 //@   modifies a.childrenHeaders, a.childrenCountSum, a.header, ghost.sto, ghost.stored, ghost.touched, alloc,
 //@        as(l, *ArrayDataSlab).elements, as(l, *ArrayDataSlab).header, as(l, *ArrayDataSlab).next,
@@ -275,7 +275,7 @@ package atree
 //@   ensures[C05] err == nil ==> (forall k :: 0 <= k && k < len(a.childrenHeaders) && (forall j :: 0 <= j && j < len(old(a.childrenHeaders)) && j != chi ==> hdrBand(old(a.childrenHeaders)[j])) ==> hdrBand(a.childrenHeaders[k]))
 //@   ensures[C09] err == nil ==> sto[a.header.slabID] == a && distinctChildren(a)
 //@   ensures[C09] err == nil ==> agree(a)
-//@   ensures[C03] err == nil ==> has(stored, a)
+//@   ensures[C01 C03] err == nil ==> has(stored, a)
 //@   ensures[C09] forall id SlabID :: id != old(a.header.slabID) && (forall k :: 0 <= k && k < len(old(a.childrenHeaders)) ==> id != old(a.childrenHeaders)[k].slabID) ==> sto[id] == old(sto[id])
 //@   modifies ArrayMetaDataSlab.childrenHeaders@inSub(a), ArrayMetaDataSlab.childrenCountSum@inSub(a), ArrayMetaDataSlab.header@inSub(a),
 //@        ArrayDataSlab.elements@inSub(a), ArrayDataSlab.header@inSub(a), ArrayDataSlab.next@inSub(a), ghost.sto, ghost.stored, ghost.touched, alloc
@@ -319,7 +319,7 @@ package atree
 //@   ensures[C09] err == nil ==> agree(a)
 //@   ensures[C09] stoFrameMeta(a, valueRoot(value))
 //@   ensures[C05] err == nil ==> (forall k :: 0 <= k && k < len(a.childrenHeaders) ==> hdrBand(a.childrenHeaders[k]))
-//@   ensures[C03] err == nil ==> has(stored, a)
+//@   ensures[C01 C03] err == nil ==> has(stored, a)
 //@   ensures[C18] err != nil ==> categorised(err)
 //@   modifies ArrayMetaDataSlab.childrenHeaders@inSub(a), ArrayMetaDataSlab.childrenCountSum@inSub(a), ArrayMetaDataSlab.header@inSub(a),
 //@        ArrayDataSlab.elements@inSub(a), ArrayDataSlab.header@inSub(a), ArrayDataSlab.next@inSub(a), ghost.sto, ghost.stored, ghost.touched, alloc,
@@ -337,7 +337,7 @@ package atree
 //@   ensures[C09] err == nil ==> sto[a.header.slabID] == a && distinctChildren(a)
 //@   ensures[C09] err == nil ==> agree(a)
 //@   ensures[C05] err == nil ==> (forall k :: 0 <= k && k < len(a.childrenHeaders) ==> hdrBand(a.childrenHeaders[k]))
-//@   ensures[C03] err == nil ==> has(stored, a)
+//@   ensures[C01 C03] err == nil ==> has(stored, a)
 //@   ensures[C18] err != nil ==> categorised(err)
 //@   modifies ArrayMetaDataSlab.childrenHeaders@inSub(a), ArrayMetaDataSlab.childrenCountSum@inSub(a), ArrayMetaDataSlab.header@inSub(a),
 //@        ArrayDataSlab.elements@inSub(a), ArrayDataSlab.header@inSub(a), ArrayDataSlab.next@inSub(a), ghost.sto, ghost.stored, ghost.touched, alloc,
@@ -357,7 +357,7 @@ package atree
 //@   ensures[C09] err == nil ==> sto[a.header.slabID] == a && distinctChildren(a)
 //@   ensures[C09] err == nil ==> agree(a)
 //@   ensures[C05] err == nil ==> (forall k :: 0 <= k && k < len(a.childrenHeaders) ==> hdrBand(a.childrenHeaders[k]))
-//@   ensures[C03] err == nil ==> has(stored, a)
+//@   ensures[C01 C03] err == nil ==> has(stored, a)
 //@   ensures[C18] err != nil ==> categorised(err)
 //@   modifies ArrayMetaDataSlab.childrenHeaders@inSub(a), ArrayMetaDataSlab.childrenCountSum@inSub(a), ArrayMetaDataSlab.header@inSub(a),
 //@        ArrayDataSlab.elements@inSub(a), ArrayDataSlab.header@inSub(a), ArrayDataSlab.next@inSub(a), ghost.sto, ghost.stored, ghost.touched, alloc
